@@ -46,6 +46,7 @@ type caseT struct {
 	Outcome      int  // subject handler: 0 success, 1 error, 2 panic
 	SlowLogUs    int  // the logger's Error() takes this long (loggers do I/O)
 	NegTimeout   bool // CloseTimeout is negative (a deadline that already passed)
+	SubEnds      bool // every subscription ends by itself (channel closed by the subscriber) while the subject invocation runs; the router then closes itself
 	Noise        []uint8
 }
 
@@ -53,7 +54,7 @@ func (c caseT) String() string { return fmt.Sprintf("%+v", plain(c)) }
 
 type plain caseT
 
-var points = []string{"watcher-race", "emit-in-close", "before-settle", "publishing", "in-handler", "received", "dispatched", "decorator", "in-handler", "watcher-race", "emit-in-close", "none"}
+var points = []string{"watcher-race", "emit-in-close", "before-settle", "publishing", "in-handler", "received", "dispatched", "decorator", "in-handler", "watcher-race", "emit-in-close", "none", "sub-ends", "sub-ends"}
 
 var hookOf = map[string]string{
 	"decorator":     "decorator.sub.before_out",
@@ -78,6 +79,11 @@ func genCase(t *rapid.T) caseT {
 		c.Background = append(c.Background, rapid.IntRange(0, 2).Draw(t, "backgroundMessages"))
 	}
 	c.SubjectOn = rapid.IntRange(0, c.Handlers-1).Draw(t, "subjectHandler")
+	wantSubEnds := false
+	if c.Point == "sub-ends" { // = in-handler, and the subscriptions end by themselves meanwhile (script subscribers only)
+		c.Point = "in-handler"
+		wantSubEnds = !c.GoChannel
+	}
 	if c.Point == "publishing" {
 		c.WithPub[c.SubjectOn] = true
 	}
@@ -89,7 +95,7 @@ func genCase(t *rapid.T) caseT {
 	if c.GoChannel && c.Point == "emit-in-close" {
 		c.Point = "in-handler"
 	}
-	if !c.GoChannel && c.Point == "in-handler" {
+	if !c.GoChannel && c.Point == "in-handler" && !wantSubEnds {
 		c.SlowDrain = rapid.Bool().Draw(t, "subscriberDrainsBeforeClosing")
 	}
 	c.Outcome = rapid.SampledFrom([]int{0, 0, 1, 2, 2}).Draw(t, "subjectOutcome")
@@ -97,9 +103,17 @@ func genCase(t *rapid.T) caseT {
 		c.Outcome = 0 // these points are only reached by a successful handler
 	}
 	c.SlowLogUs = rapid.SampledFrom([]int{0, 0, 300, 2000}).Draw(t, "loggerErrorDurationUs")
-	if c.Point == "in-handler" && !c.SlowDrain && rapid.IntRange(0, 5).Draw(t, "negativeCloseTimeout") == 0 {
+	if c.Point == "in-handler" && !c.SlowDrain && !wantSubEnds && rapid.IntRange(0, 5).Draw(t, "negativeCloseTimeout") == 0 {
 		c.NegTimeout = true
 		c.HandlerDur = 3
+	}
+	if wantSubEnds {
+		// the router's own Close call is not observable, so nothing here may depend on who runs into the timeout:
+		// short handler, generous timeout
+		c.SubEnds = true
+		c.HandlerDur = c.HandlerDur % 2
+		c.ReleaseDelay = c.ReleaseDelay % 2
+		c.CloseTimeout = 5 * time.Second
 	}
 	c.Noise = rapid.SliceOfN(rapid.Uint8Range(0, 5), 0, 8).Draw(t, "noise")
 	return c
@@ -243,6 +257,7 @@ func runCase(c caseT) (viol []string, held bool) {
 	}
 	subs := make([]*lib.ScriptSub, c.Handlers)
 	pubs := make([]*lib.ScriptPub, c.Handlers)
+	var handles []*message.Handler
 	var gc *gochannel.GoChannel
 	if c.GoChannel {
 		gc = gochannel.NewGoChannel(gochannel.Config{}, watermill.NopLogger{})
@@ -273,10 +288,10 @@ func runCase(c caseT) (viol []string, held bool) {
 		name, topic := fmt.Sprintf("h%d", i), fmt.Sprintf("t%d", i)
 		if c.WithPub[i] {
 			pubs[i] = lib.NewScriptPub("")
-			router.AddHandler(name, topic, sub, "out", pubs[i], handler(true))
+			handles = append(handles, router.AddHandler(name, topic, sub, "out", pubs[i], handler(true)))
 		} else {
 			h := handler(false)
-			router.AddNoPublisherHandler(name, topic, sub, func(m *message.Message) error { _, err := h(m); return err })
+			handles = append(handles, router.AddNoPublisherHandler(name, topic, sub, func(m *message.Message) error { _, err := h(m); return err }))
 		}
 	}
 	var park *lib.Parked
@@ -346,6 +361,21 @@ func runCase(c caseT) (viol []string, held bool) {
 	}
 	if c.Point == "watcher-race" {
 		held = park.WaitReached(50 * time.Millisecond)
+	}
+	if c.SubEnds && held {
+		for _, s := range subs {
+			for _, sub := range s.Subs() {
+				sub.End()
+			}
+		}
+		// the receive loops end and the handlers deregister themselves; the subject invocation is still running
+		for _, h := range handles {
+			select {
+			case <-h.Stopped():
+			case <-time.After(200 * time.Millisecond):
+			}
+		}
+		time.Sleep(time.Duration(c.ReleaseDelay) * time.Millisecond)
 	}
 	// concurrent Close callers
 	results := make([]*closeRes, c.Callers)
@@ -436,8 +466,10 @@ func runCase(c caseT) (viol []string, held bool) {
 		}
 		check("at the return of Run", runSnap)
 	}
-	// subscribers get closed
-	if !c.GoChannel {
+	// subscribers get closed (handlers whose subscription ended by itself are no longer handlers of the router when
+	// Close runs: nothing is demanded about their subscribers)
+	if c.SubEnds {
+	} else if !c.GoChannel {
 		for i, s := range subs {
 			if !lib.WaitUntil(lib.Live, func() bool { return s.CloseCalls() >= 1 }) {
 				bad("close: subscriber of handler %d never got Close() (path point %s)", i, c.Point)
@@ -476,9 +508,75 @@ func TestGracefulClose(t *testing.T) {
 			path := lib.WriteReplay("TestGracefulClose", "C06", map[string]any{"property": "C06", "case": c, "violations": v})
 			t.Fatalf("violation of C06 (%d):\n  %s\ncase: %s\nreplay: %s", len(v), strings.Join(v, "\n  "), c, path)
 		}
-		lib.Case(c.String(), held, "point:"+c.Point, fmt.Sprintf("held=%v", held), fmt.Sprintf("gochannel=%v", c.GoChannel))
+		lib.Case(c.String(), held, "point:"+c.Point, fmt.Sprintf("held=%v", held), fmt.Sprintf("gochannel=%v", c.GoChannel), fmt.Sprintf("subscriptions-end-by-themselves=%v", c.SubEnds))
 		if held {
 			lib.Sample(map[string]any{"test": "GracefulClose", "case": c.String()})
+		}
+	})
+}
+
+
+// ---------- Close arrives while the router is still starting its handlers ----------
+
+// "Close may be called repeatedly and concurrently, every call returns, and Run returns only after the close has completed":
+// also when the first Close arrives while RunHandlers is between two handlers (signal handler plugins do that).
+func TestCloseWhileStarting(t *testing.T) {
+	rapid.Check(t, func(t *rapid.T) {
+		n := rapid.IntRange(2, 4).Draw(t, "handlers")
+		skip := rapid.IntRange(0, n-2).Draw(t, "closeAfterStarts")
+		callers := rapid.IntRange(1, 4).Draw(t, "closeCallers")
+		router, err := message.NewRouter(message.RouterConfig{CloseTimeout: time.Second}, watermill.NopLogger{})
+		if err != nil {
+			t.Fatalf("NewRouter: %v", err)
+		}
+		ctl := lib.Install()
+		defer ctl.Uninstall()
+		subs := make([]*lib.ScriptSub, n)
+		var handled atomic.Int64
+		for i := 0; i < n; i++ {
+			subs[i] = lib.NewScriptSub("")
+			router.AddNoPublisherHandler(fmt.Sprintf("h%d", i), "t", subs[i], func(*message.Message) error { handled.Add(1); return nil })
+		}
+		park := ctl.Park("router.runhandlers.started", nil, skip)
+		runRet := make(chan error, 1)
+		go func() { runRet <- router.Run(context.Background()) }()
+		achieved := park.WaitReached(200 * time.Millisecond)
+		closed := make(chan error, callers)
+		for k := 0; k < callers; k++ {
+			go func() { closed <- router.Close() }()
+		}
+		time.Sleep(time.Duration(rapid.IntRange(0, 3).Draw(t, "releaseDelayMs")) * time.Millisecond)
+		park.Release()
+		for k := 0; k < callers; k++ {
+			select {
+			case <-closed:
+			case <-time.After(time.Second + lib.Live):
+				t.Fatalf("violation: a Close() call that arrived while handlers were being started did not return within CloseTimeout+%v (forced=%v)", lib.Live, achieved)
+			}
+		}
+		select {
+		case err := <-runRet:
+			if err != nil {
+				// Run may legitimately report that start-up was interrupted; it must return
+				_ = err
+			}
+		case <-time.After(lib.Live):
+			t.Fatalf("violation: Run did not return within %v after Close() returned (forced=%v)", lib.Live, achieved)
+		}
+		// none will start afterwards
+		before := handled.Load()
+		for _, s := range subs {
+			for _, sub := range s.Subs() {
+				sub.Emit(message.NewMessage("late", nil), "late", 0, 5*time.Millisecond)
+			}
+		}
+		time.Sleep(5 * time.Millisecond)
+		if handled.Load() != before {
+			t.Fatalf("violation: a handler invocation started after Close() and Run had returned")
+		}
+		lib.Case(fmt.Sprintf("close-while-starting|%d|%d|%d", n, skip, callers), achieved, "point:starting", fmt.Sprintf("held=%v", achieved))
+		if achieved {
+			lib.Sample(map[string]any{"test": "CloseWhileStarting", "handlers": n, "close_after_starts": skip + 1, "close_callers": callers})
 		}
 	})
 }
